@@ -1601,5 +1601,44 @@ func TestVerifBoundedC05(t *testing.T) {
 	c.compounds(lC, tier, c05AllEntries())
 	c.argLists(lC, tier, c05AllEntries())
 	c.registry(lE, tier)
+	lF := c.law("F: Safe()/Unsafe() wrappers in interface-typed slots BELOW AN UNEXPORTED FIELD (their methods cannot be called there, they are recognised by type): the wrapper in the slot decides, Unsafe(x) is enveloped, Safe(x) visible, a plain value beside them enveloped",
+		"all", "3 slot shapes (slice element, array element, map value) x {unexported field, pointer to it, nested one level deeper} x 2 directives")
+	c.hiddenWrappers(lF)
 	c05Report(c)
+}
+
+type c05HidSlice struct{ args []interface{} }
+type c05HidArr struct{ args [2]interface{} }
+type c05HidMap struct{ m map[string]interface{} }
+type c05HidDeep struct{ in c05HidSlice }
+
+func (c *c05Ctx) hiddenWrappers(l *c05Law) {
+	u, sf, pl := Unsafe("Zq7"), Safe("ok5"), "Wx3"
+	e := func(s string) string { return vS + s + vE }
+	for _, tc := range []struct {
+		txt  string
+		v    interface{}
+		want string
+	}{
+		{`c05HidSlice{[]interface{}{Unsafe("Zq7"), Safe("ok5"), "Wx3"}}`, c05HidSlice{[]interface{}{u, sf, pl}}, "{[" + e("Zq7") + " ok5 " + e("Wx3") + "]}"},
+		{`&c05HidSlice{[]interface{}{Unsafe("Zq7"), Safe("ok5"), "Wx3"}}`, &c05HidSlice{[]interface{}{u, sf, pl}}, "&{[" + e("Zq7") + " ok5 " + e("Wx3") + "]}"},
+		{`c05HidArr{[2]interface{}{Safe("ok5"), Unsafe("Zq7")}}`, c05HidArr{[2]interface{}{sf, u}}, "{[ok5 " + e("Zq7") + "]}"},
+		{`c05HidMap{map[string]interface{}{"k": Unsafe("Zq7")}}`, c05HidMap{map[string]interface{}{"k": u}}, "{map[" + e("k") + ":" + e("Zq7") + "]}"},
+		{`c05HidMap{map[string]interface{}{"k": Safe("ok5")}}`, c05HidMap{map[string]interface{}{"k": sf}}, "{map[" + e("k") + ":ok5]}"},
+		{`c05HidDeep{c05HidSlice{[]interface{}{Unsafe("Zq7"), Safe("ok5")}}}`, c05HidDeep{c05HidSlice{[]interface{}{u, sf}}}, "{{[" + e("Zq7") + " ok5]}}"},
+	} {
+		for _, d := range []string{"%v", "%s"} {
+			if c.full() {
+				return
+			}
+			call := fmt.Sprintf("Sprintf(%q, %s)", d, tc.txt)
+			out, ok := c.run(call, func() string { return string(Sprintf(d, tc.v)) })
+			l.cases++
+			l.nontrivial++
+			if ok && out != tc.want {
+				c.fail(call, out, "the wrapper in the slot decides on which side of the envelopes its content lands: want "+strconv.Quote(tc.want))
+			}
+		}
+	}
+	l.complete = !c.full()
 }
